@@ -1,5 +1,6 @@
 import CoxeterVerif.Driver.Proto
 import CoxeterVerif.Model.Polyhedron
+import CoxeterVerif.Model.Constructors
 
 namespace OpsC02
 
@@ -28,6 +29,38 @@ def run (α : Type) [Scalar α] [Codec α] (op : String) (c : Ctx) : Option (Rd 
       let vol : α ← Rd.sc c
       let cen := Poly3.centroid S
       pure s!"{Out.v3 cen} {Out.m3 (Poly3.inertia S cen vol)}"
+  | "poly.face_area" => some do
+      -- in: face vertices, hull count (Qhull, external), aligned centred vertices (kabsch, external)
+      -- out: area | E:ValueError.  The vertex order after `_reorder_verts` is computed by the model (C15.reorder).
+      let vs : List (V3 α) ← Rd.list c (Rd.v3 c)
+      let hull ← Rd.nat c
+      let rot : List (V3 α) ← Rd.list c (Rd.v3 c)
+      match Poly3.faceArea vs hull (C15.reorder rot vs) with
+      | .ok a => pure (Out.sc a)
+      | .error e => pure s!"E:{e}"
+  | "poly.object" => some do
+      -- in: list of faces (vertices, hull count, aligned centred vertices)
+      -- out: i<st> [vol area i<n> areas..]  i<st> [centroid(3)]  i<st> [inertia(9)]   (st 0 = ok, 1 = ValueError)
+      let faces : List (List (V3 α) × Nat × List (V3 α)) ← Rd.list c (do
+        let vs : List (V3 α) ← Rd.list c (Rd.v3 c)
+        let hull ← Rd.nat c
+        let rot : List (V3 α) ← Rd.list c (Rd.v3 c)
+        pure (vs, hull, C15.reorder rot vs))
+      let o := Poly3.observe faces
+      let a := match o.areas with
+        | .ok (v, s, as) => s!"i0 {Out.sc v} {Out.sc s} i{as.length} {Out.scs as}"
+        | .error _ => "i1"
+      let ce := match o.centroid with
+        | .ok v => s!"i0 {Out.v3 v}"
+        | .error _ => "i1"
+      let i := match o.inertia with
+        | .ok m => s!"i0 {Out.m3 m}"
+        | .error _ => "i1"
+      pure s!"{a} {ce} {i}"
+  | "poly.facecert" => some do
+      -- in: face vertices ; out: planarCheck ccwCheck clipCheck (exact when run in Q mode)
+      let vs : List (V3 α) ← Rd.list c (Rd.v3 c)
+      pure (Out.bools [Poly3.planarCheck vs, Poly3.ccwCheck vs, Poly3.clipCheck vs])
   | _ => none
 
 end OpsC02
